@@ -79,7 +79,7 @@ class cpr {
                   AMGCL_PARAMS_IMPORT_CHILD(p, sprecond),
                   AMGCL_PARAMS_IMPORT_VALUE(p, block_size)
             {
-                check_params(p, {"pprecond", "sprecond", "block_size", "active_rows"});
+                check_params(p, {"pprecond", "sprecond", "block_size"});
             }
 
             void get(boost::property_tree::ptree &p, const std::string &path = "") const
